@@ -1,6 +1,7 @@
 """C07 — opening/reading a damaged file never crashes the process."""
 from lib import cfg
 from rules import common
+from rules import panic_common as pc
 from rules.panic_common import run_panic_rule
 
 CRATES = ("agdb",)
@@ -10,14 +11,403 @@ EXPLANATION = (
     "every panic-capable site in it is enumerated: explicit panics, unwrap/expect, slice/Vec/str indexing, MIR "
     "bounds/division asserts, copy_from_slice, split_at, Duration::new, time arithmetic, and size-driven allocations. "
     "Each site is discharged by a structural class (constant index into a fixed array, division by a non-zero constant, "
-    "allocation sized by an in-memory length, slice of a buffer taken only after a successful decode / length test) or by "
-    "the frozen justified table (one reason per entry); anything else is a violation.")
+    "allocation sized by an in-memory length, slice of a buffer taken only after a successful decode / length test, "
+    "copy_from_slice between two slices of the same constant length) or by the frozen justified table (one reason per "
+    "entry, most with a structural requirement that is re-evaluated on every run); anything else is a violation.")
 DECIDED = ["R07 every panic-capable site reachable from opening/reading is structurally safe or justified (PANIC)"]
 UNDECIDED = ["arithmetic-overflow asserts outside the decoders (hundreds; they wrap in release builds) are counted, not triaged",
-             "infinite loops on corrupted adjacency lists", "correctness of the justified table itself"]
+             "infinite loops on corrupted adjacency lists", "correctness of the justified table itself",
+             "memory that grows with the (possibly sparse / WAL-inflated) length of the data file without a single "
+             "enumerated allocation site (std::fs::read, BTreeMap of free records, Vec::extend)"]
 
-READY = False   # under triage: not claimed in MANIFEST until every site is triaged
-JUSTIFIED = {}
+READY = True    # every residual site is triaged: justified below, or a reproduced genuine defect (known finding)
+
+
+# ------------------------------------------------------------------------------------------- requirements (structural)
+
+def _site_term(b, s):
+    return b.blocks[s["bb"]]["term"]
+
+
+def _same_root_as_arg(n):
+    """operand has the same origin as argument `n` of the site's call."""
+    return lambda fa, b, s, o: pc._root(b, o) is not None and pc._root(b, o) == pc._root(b, _site_term(b, s)["a"][n])
+
+
+# Duration::new(secs, nanos) only panics when nanos >= 1e9 carries into an overflowing secs
+nanos_below_1e9 = pc.rejected_before("Ge", lhs=_same_root_as_arg(1), rhs=pc.is_const(1_000_000_000))
+
+
+def divisor_is_checked_capacity(fa, b, s):
+    """`x % self.capacity()` on the false edge of `self.capacity() == 0`."""
+    c = cfg.op_place(_site_term(b, s)["c"])
+    divs = [d[2]["a"] for d in cfg.defs(b).get(c[0], []) if d[0] == "assign" and d[2]["k"] == "bin" and d[2]["op"] == "Eq"]
+    return bool(divs) and pc._call_result(b, divs[0], ("::capacity",)) is not None and \
+        pc.rejected_before("Eq", lhs=pc.result_of("::capacity"), rhs=pc.is_const(0))(fa, b, s)
+
+
+def divisor_is_storage_len(fa, b, s):
+    """`x / T::storage_len()`; every VecValue::storage_len impl is a closed-form constant expression: no input, no
+    branch, calls only `serialized_size_static` (1, 8, 16, 24 or 32 today)."""
+    c = cfg.op_place(_site_term(b, s)["c"])
+    divs = [d[2]["a"] for d in cfg.defs(b).get(c[0], []) if d[0] == "assign" and d[2]["k"] == "bin" and d[2]["op"] == "Eq"]
+    if not divs or pc._call_result(b, divs[0], ("VecValue::storage_len",)) is None:
+        return False
+    impls = [x for x in fa.bodies.values() if x.crate == "agdb" and x.d.get("name") == "storage_len" and
+             (x.d.get("impl_trait") or "").endswith("VecValue")]
+    return len(impls) >= 8 and all(
+        x.d["argc"] == 0 and not any(bl["term"]["k"] == "switch" for bl in x.blocks) and
+        all((cfg.callee_decl(t) or "").endswith("::serialized_size_static") for i, t in cfg.calls(x)) for x in impls)
+
+
+def _range_of_index_call(b, op):
+    t = pc._call_result(b, op, ("::index", "::index_mut"))
+    if t is None or len(t["a"]) < 2:
+        return None
+    return pc.range_parts(b, t["a"][1])
+
+
+def _len_call_on(b, op, root):
+    t = pc._call_result(b, op, ("::len",))
+    return t is not None and pc._root(b, t["a"][0]) == root
+
+
+def set_value_guarded(fa, b, s):
+    """`self.value[0..value.len()]` (and the copy into it from `value`) on the false edge of `value.len() > 15`."""
+    t = _site_term(b, s)
+    if s["kind"] == "index":
+        rp, src = pc.range_parts(b, t["a"][1]), 2
+    else:
+        rp, src = _range_of_index_call(b, t["a"][0]), pc._root(b, t["a"][1])
+    if not rp or rp[0] != "Range" or pc.const_of(b, rp[1][0]) != 0 or not _len_call_on(b, rp[1][1], src):
+        return False
+    return pc.rejected_before("Gt", lhs=lambda fa_, b_, s_, o: _len_call_on(b_, o, src), rhs=pc.is_const(15))(fa, b, s)
+
+
+def range_end_is_masked_size(fa, b, s):
+    """`self.value[0..self.size()]` where `size()` returns `byte & 0b1111`."""
+    rp = pc.range_parts(b, _site_term(b, s)["a"][1])
+    if not rp or rp[0] != "Range" or pc.const_of(b, rp[1][0]) != 0:
+        return False
+    if pc._call_result(b, rp[1][1], ("DbValueIndex::size",)) is None:
+        return False
+    sz = fa.body("agdb::db::db_value_index::DbValueIndex::size")
+    rets = [d for d in cfg.defs(sz).get(0, [])] if sz else []
+    return len(rets) == 1 and rets[0][0] == "assign" and rets[0][2]["k"] == "bin" and rets[0][2]["op"] == "BitAnd" and \
+        pc.const_of(sz, rets[0][2]["b"]) == 15
+
+
+def drain_offset_clamped(fa, b, s):
+    """`ids.drain(..offset)` with offset = min(_, len) and every preceding `truncate(end)` has end = len or
+    end = min(offset.saturating_add(_), len) >= offset."""
+    t = _site_term(b, s)
+    rp = pc.range_parts(b, t["a"][1])
+    if not rp or rp[0] != "RangeTo":
+        return False
+    mn = pc._call_result(b, rp[1][0], ("std::cmp::min",))
+    if mn is None or not any(pc._call_result(b, a, ("::len",)) for a in mn["a"]):
+        return False
+    off = mn["d"][0]
+    for i, tt in cfg.calls(b):
+        if cfg.callee_decl(tt) != "std::vec::Vec::truncate":
+            continue
+        end = pc._root(b, tt["a"][1])
+        for d in cfg.defs(b).get(end, []):
+            if d[0] == "assign" and d[2]["k"] in ("use", "cast") and pc._call_result(b, d[2]["o"], ("::len",)):
+                continue
+            if d[0] == "call" and (cfg.callee_decl(d[2]) or "") == "std::cmp::min":
+                sa = [pc._call_result(b, a, ("::saturating_add",)) for a in d[2]["a"]]
+                if any(x is not None and pc._flows_from(b, x["a"][0], off) for x in sa) and \
+                        any(pc._call_result(b, a, ("::len",)) for a in d[2]["a"]):
+                    continue
+            return False
+    return True
+
+
+# vec![0; size] only after `remaining < size` was rejected, remaining = metadata().len() - stream_position()
+wal_size_within_remaining = pc.rejected_before(
+    "Lt", lhs=lambda fa, b, s, o: (lambda t: t is not None and pc._call_result(b, t["a"][0], ("Metadata::len",)) is not None)(
+        pc._call_result(b, o, ("::saturating_sub",))),
+    rhs=lambda fa, b, s, o: pc._root(b, o) is not None and pc._root(b, o) == pc._root(b, _site_term(b, s)["a"][-1]))
+
+
+def insert_pos_after_separator(fa, b, s):
+    """`name.insert(pos, '.')`: every definition of pos is the constant 0 or `<rfind result> + 1`."""
+    pos = pc._root(b, _site_term(b, s)["a"][1])
+    ds = cfg.defs(b).get(pos, [])
+    if not ds:
+        return False
+    for d in ds:
+        if d[0] != "assign":
+            return False
+        r = d[2]
+        if r["k"] == "use" and pc.const_of(b, r["o"]) == 0:
+            continue
+        pl = cfg.op_place(r["o"]) if r["k"] == "use" else None
+        adds = [x[2] for x in cfg.defs(b).get(pl[0], []) if x[0] == "assign" and x[2]["k"] == "bin"] if pl else []
+        if len(adds) == 1 and adds[0]["op"].startswith("Add") and pc.const_of(b, adds[0]["b"]) == 1:
+            src = pc._root(b, adds[0]["a"])          # `slash` = (rfind(..) as Some).0
+            pay = [cfg.op_place(x[2]["o"]) for x in cfg.defs(b).get(src, []) if x[0] == "assign" and x[2]["k"] == "use"]
+            if len(pay) == 1 and pay[0] and any(x[0] == "call" and (cfg.callee(x[2]) or "").endswith("::rfind")
+                                                for x in cfg.defs(b).get(pay[0][0], [])):
+                continue
+        return False
+    return True
+
+
+def write_range_is_pos_plus_len(fa, b, s):
+    """`self.buffer[pos..end]` / the copy of `bytes` into it: end = pos + bytes.len() and the site lies on one edge of the
+    comparison of `end` against `self.len()`."""
+    t = _site_term(b, s)
+    rp = pc.range_parts(b, t["a"][1]) if s["kind"] == "index" else _range_of_index_call(b, t["a"][0])
+    if not rp or rp[0] != "Range":
+        return False
+    start, end = pc._root(b, rp[1][0]), pc._root(b, rp[1][1])
+    ok = False
+    for d in cfg.defs(b).get(end, []):
+        pl = cfg.op_place(d[2]["o"]) if d[0] == "assign" and d[2]["k"] == "use" else None
+        for x in (cfg.defs(b).get(pl[0], []) if pl else []):
+            if x[0] == "assign" and x[2]["k"] == "bin" and x[2]["op"].startswith("Add") and pc._root(b, x[2]["a"]) == start \
+                    and pc._call_result(b, x[2]["b"], ("::len",)) is not None:
+                ln = pc._call_result(b, x[2]["b"], ("::len",))
+                ok = s["kind"] == "index" or pc._root(b, ln["a"][0]) == pc._root(b, t["a"][1])
+    return ok and pc.after_len_test(fa, b, s)
+
+
+RECORDS = "agdb::storage::storage_records::StorageRecords"
+RECORDS_WRITERS = {"new_record", "set_record", "remove_index", "set_pos", "set_size"}
+SHRINKING = ("std::vec::Vec::truncate", "std::vec::Vec::pop", "std::vec::Vec::clear", "std::vec::Vec::remove",
+             "std::vec::Vec::swap_remove", "std::vec::Vec::drain", "std::vec::Vec::split_off", "std::vec::Vec::retain",
+             "std::vec::Vec::set_len", "std::vec::Vec::dedup")
+
+
+def records_invariant(fa, b, s):
+    """Type invariant of StorageRecords (private field `records`): records[0] exists (`new()` creates it, nothing
+    shrinks the vector) and every stored `.index` is < records.len(). It is established by exactly the methods that
+    take `&mut self.records`; a new writer (or any shrinking call) invalidates the frozen reasoning."""
+    writers = set()
+    for x in fa.bodies.values():
+        if x.crate != "agdb" or common.norm(x.d.get("impl_self") or "") != RECORDS or "::tests::" in x.path:
+            continue
+        for i, t in cfg.calls(x):
+            if cfg.callee_decl(t) in SHRINKING and t["a"] and (cfg.op_origin(x, t["a"][0]) or (0, []))[1][:1] == [".records"]:
+                return False
+        for bi, st in cfg.assigns(x):
+            r = st["r"]
+            if r["k"] == "ref" and r.get("mut") and [e for e in r["p"][1:] if e != "*"][:1] == [".records"] and r["p"][0] == 1:
+                writers.add(x.d.get("name"))
+    return writers == RECORDS_WRITERS
+
+
+def free_head_or_zero(fa, b, s):
+    """new_record: the index is the constant 0 or the free-list head read from `records[0].index`."""
+    t = _site_term(b, s)
+    if pc.const_of(b, t["a"][1]) == 0:
+        return True
+    o = cfg.op_origin(b, t["a"][1])
+    if not o:
+        return False
+    for d in cfg.defs(b).get(o[0], []):
+        if d[0] == "assign" and d[2]["k"] == "use":
+            pl = cfg.op_place(d[2]["o"])
+            if pl and pl[-1] == ".index":
+                it = pc._call_result(b, {"cp": [pl[0]]}, ("::index",))
+                if it is not None and pc.const_of(b, it["a"][1]) == 0:
+                    return True
+    return False
+
+
+def index_from_range_1_to_len(fa, b, s):
+    """`for index in 1..self.records.len() { self.records[index] }`."""
+    idx = pc._root(b, _site_term(b, s)["a"][1])
+    for bi, st in cfg.assigns(b):
+        r = st["r"]
+        if r["k"] == "agg" and r.get("adt", "").endswith("ops::Range") and len(r["ops"]) == 2 and \
+                pc.const_of(b, r["ops"][0]) == 1 and pc._call_result(b, r["ops"][1], ("::len",)) is not None:
+            # the index is the Some payload of `next()` on that range
+            for d in cfg.defs(b).get(idx, []):
+                pl = cfg.op_place(d[2]["o"]) if d[0] == "assign" and d[2]["k"] == "use" else None
+                if pl and any(x[0] == "call" and (cfg.callee(x[2]) or "").endswith("::next")
+                              for x in cfg.defs(b).get(pl[0], [])):
+                    return True
+    return False
+
+
+def is_valid_checks_own_records(fa, b, s):
+    """is_valid is private and only ever receives elements of `self.records` (callers: record(), records())."""
+    cs = common.callers_of(fa, RECORDS + "::is_valid", "agdb")
+    names = {common.norm(cb.root or cb.npath).split("::")[-1] for cb, j, t in cs if "::tests::" not in cb.path}
+    return names <= {"record", "records"} and bool(names) and records_invariant(fa, b, s)
+
+
+def resize_callers_frozen(fa, b, s):
+    """StorageData::resize is only called by Storage::truncate (behind `size < current_size`) and by the version
+    migration (`len + version record`); wrappers forward unchanged."""
+    names = set()
+    for cb in fa.bodies.values():
+        if cb.crate != "agdb" or "::tests::" in cb.path:
+            continue
+        for j, t in cfg.calls(cb):
+            if (cfg.callee_decl(t) or "").endswith("StorageData::resize"):
+                n = common.norm(cb.root or cb.npath)
+                if n.endswith("StorageData>::resize"):
+                    continue            # AnyStorage / FileStorageMemoryMapped forwarders
+                names.add(n.split("::")[-1])
+                if n.endswith("::truncate") and common.guarded_by(cb, j, pc.len_guards(cb)) is None:
+                    return False
+    return names == {"truncate", "validate_or_update_version"}
+
+
+BITSET_SET = "agdb::collections::bit_set::BitSet::set"
+
+
+def _as_u64_of(b, op):
+    t = pc._call_result(b, op, ("GraphIndex::as_u64",))
+    return pc._root(b, t["a"][0]) if t is not None else None
+
+
+def bitset_callers_range_checked(fa, b, s):
+    """Every caller of BitSet::set passes a value below a stored-collection capacity (graph capacity via
+    `is_in_range` / `node()?`, or `hash % new_capacity`), so the bit set is bounded by the data size / 64."""
+    cs = [(cb, j, t) for cb, j, t in common.callers_of(fa, BITSET_SET, "agdb") if "::tests::" not in cb.path]
+    if not cs:
+        return False
+    for cb, j, t in cs:
+        n = common.norm(cb.root or cb.npath)
+        if n.endswith("SearchImpl::visit_index"):
+            if _as_u64_of(cb, t["a"][1]) != 2:
+                return False
+            ups = [x for x in common.callers_of(fa, n, "agdb") if "::tests::" not in x[0].path]
+            if not ups:
+                return False
+            for ub, uj, ut in ups:
+                ok = False
+                for i, tt in cfg.calls(ub):
+                    if (cfg.callee(tt) or "").endswith("GraphImpl::is_in_range") and \
+                            pc._root(ub, tt["a"][1]) == pc._root(ub, ut["a"][1]):
+                        for sw in cfg.bool_switches(ub, cfg.derived_locals(ub, [tt["d"][0]])):
+                            if cfg.find_path(ub, [0], [uj], removed_edges=[sw["true_edge"]]) is None:
+                                ok = True
+                if not ok:
+                    return False
+        elif n.endswith("PathSearch::expand"):
+            idx = _as_u64_of(cb, t["a"][1])
+            ok = False
+            for i, tt in cfg.calls(cb):
+                if (cfg.callee(tt) or "").endswith("GraphImpl::node") and pc._root(cb, tt["a"][2]) == idx:
+                    der = cfg.derived_locals(cb, [tt["d"][0]], extra_through=("std::option::Option::ok_or_else",))
+                    for te in cfg.try_edges(cb, der):
+                        if te["ok_edge"] and cfg.find_path(cb, [0], [j], removed_edges=[te["ok_edge"]]) is None:
+                            ok = True
+            if not ok:
+                return False
+        elif n.endswith("MultiMapImpl::rehash_valid"):
+            pos = pc._root(cb, t["a"][1])
+            ds = cfg.defs(cb).get(pos, [])
+            if not ds:
+                return False
+            for d in ds:
+                r = d[2] if d[0] == "assign" else None
+                if r and r["k"] == "bin" and r["op"] == "Rem" and pc._root(cb, r["b"]) == 4:
+                    continue            # hash % new_capacity
+                if r and r["k"] == "use" and pc.const_of(cb, r["o"]) == 0:
+                    continue            # wrap-around at new_capacity
+                pl = cfg.op_place(r["o"]) if r and r["k"] == "use" else None
+                adds = [x[2] for x in cfg.defs(cb).get(pl[0], []) if x[0] == "assign" and x[2]["k"] == "bin"] if pl else []
+                if len(adds) == 1 and adds[0]["op"].startswith("Add") and pc._root(cb, adds[0]["a"]) == pos and \
+                        pc.const_of(cb, adds[0]["b"]) == 1:
+                    continue            # pos += 1 (reset to 0 when it reaches new_capacity)
+                return False
+        else:
+            return False
+    return True
+
+
+S = "agdb::storage::storage_records::StorageRecords::"
+HASH = "<&[u8] as agdb::utilities::stable_hash::StableHash>::stable_hash|"
+FROMV = "<agdb::db::db_value::DbValue as std::convert::From>::from|unwrap|Result"
+MEMW = "<agdb::storage::memory_storage::MemoryStorage as agdb::storage::StorageData>::write|"
+DVI = "agdb::db::db_value_index::DbValueIndex::"
+
+JUSTIFIED = {
+    # ---- stable hash of a byte string: every bound is computed from self.len() alone
+    HASH + "index|[u8][Range]":
+        "chunk < len/8 so begin+8 = (chunk+1)*8 <= len; tail: begin = (len/8)*8, end = begin + len%8 = len",
+    HASH + "copy_from_slice|":
+        "[0u8; 8] <- self[begin..begin+8] (8 bytes); data[0..r] <- self[begin..begin+r] with r = len % 8 on both sides",
+    HASH + "index|[u8; 8][?]": "data[0..remainder] with remainder = len % 8 < 8",
+    # ---- From<Vec<T>> for DbValue: input is the caller's in-memory vector of one marker type T, never file content
+    FROMV: ("the argument is an in-memory Vec<T> supplied by the caller (not file content); the first element selects the "
+            "arm and to_i64 / to_u64 / to_f64 / string of an I64 / U64 / F64 / String value are infallible",
+            pc.unwrap_of("DbValue::to_i64", "DbValue::to_u64", "DbValue::to_f64", "DbValue::string")),
+    # ---- MemoryStorage
+    "<agdb::storage::memory_storage::MemoryStorage as agdb::storage::StorageData>::resize|alloc|vec_resize":
+        ("new_len is below the current length (Storage::truncate) or the current length + 24 (version record migration)",
+         resize_callers_frozen),
+    MEMW + "index|Vec[?]": ("buffer[pos..end] only when end = pos + bytes.len() < buffer.len()", write_range_is_pos_plus_len),
+    MEMW + "copy_from_slice|": ("buffer[pos..pos + bytes.len()] <- bytes: equal lengths", write_range_is_pos_plus_len),
+    MEMW + "alloc|vec_resize":
+        "resize(pos) with pos a position handed out by Storage: a record header / value offset inside the existing data "
+        "or its end (records are read sequentially below the data length; free positions come from those records), so at "
+        "most the current length + 32; never a value decoded from the file",
+    # ---- SystemTime
+    "<std::time::SystemTime as agdb::utilities::serialize::Serialize>::deserialize|duration_new|":
+        ("Duration::new(secs, nanos) is reached only with nanos < 1_000_000_000: no carry into secs, no overflow",
+         nanos_below_1e9),
+    # ---- BitSet
+    "agdb::collections::bit_set::BitSet::set|alloc|vec_resize":
+        ("every caller passes a value below a stored collection's capacity (graph: is_in_range / node()? ; map rehash: "
+         "hash % new_capacity) and DbVec::from_storage bounds that capacity by the size of its data, so the bit set is at "
+         "most data length / 64 bytes", bitset_callers_range_checked),
+    "agdb::collections::bit_set::BitSet::set|index|Vec[?]":
+        ("data[byte_index] after `if data.len() <= byte_index { data.resize(byte_index + 1) }`", pc.grown_to_index),
+    # ---- collections
+    "agdb::collections::multi_map::MultiMapImpl::iter_key|RemainderByZero|":
+        ("hash % capacity() is evaluated only on the false edge of `capacity() == 0` (capacity is an in-memory field "
+         "behind &self)", divisor_is_checked_capacity),
+    "agdb::collections::vec::VecImpl::<T, D, agdb::collections::vec::DbVecData, agdb::db::db_error::DbError>::from_storage"
+    "|DivisionByZero|":
+        ("T::storage_len() is a positive compile-time constant for every VecValue impl (1, 8, 16, 24 or 32)",
+         divisor_is_storage_len),
+    # ---- DbValueIndex
+    DVI + "set_value|index|[u8; 16][?]": ("value[0..v.len()] after `v.len() > 15` returned false", set_value_guarded),
+    DVI + "set_value|copy_from_slice|": ("value[0..v.len()] <- v: equal lengths, v.len() <= 15", set_value_guarded),
+    DVI + "value|index|[u8; 16][Range]": ("size() masks four bits so pos <= 15 < 16", range_end_is_masked_size),
+    # ---- search result slicing
+    "agdb::query::search_query::SearchQuery::slice|vec_drain|":
+        ("offset = min(self.offset, len) <= end = len | min(offset.saturating_add(limit), len) = ids.len() after truncate",
+         drain_offset_clamped),
+    # ---- Storage
+    "agdb::storage::Storage::read_record|index|[u8][RangeFrom]":
+        ("bytes[8..] after u64::deserialize(&bytes)? succeeded, i.e. bytes.len() >= 8 = index.serialized_size()",
+         pc.after_decode),
+    # ---- StorageRecords (private `records`; invariant: records[0] exists, every .index < records.len())
+    S + "is_valid|index|Vec[usize]":
+        ("record is an element of self.records and every stored .index is < records.len(): set_record stores index i at "
+         "slot i after growing, new_record pushes len or reuses the free head, remove_index links in-range slots only",
+         is_valid_checks_own_records),
+    S + "new_record|index|Vec[usize]":
+        ("records[0] always exists (new() creates it, the vector never shrinks); records[0].index is the free-list head, "
+         "only ever set to an in-range slot by remove_index / to a free slot's in-range link by new_record",
+         pc.all_of(free_head_or_zero, records_invariant)),
+    S + "new_record|index|Vec[?]":
+        ("records[0] always exists; records[index] with index the in-range free-list head",
+         pc.all_of(free_head_or_zero, records_invariant)),
+    S + "rebuild_free_index|index|Vec[usize]": ("index in 1..records.len()", index_from_range_1_to_len),
+    S + "remove_index|index|Vec[usize]":
+        ("records[0] always exists: new() creates it and the vector never shrinks", pc.all_of(pc.const_index(0), records_invariant)),
+    S + "remove_index|index|Vec[?]":
+        ("records[0] always exists: new() creates it and the vector never shrinks", pc.all_of(pc.const_index(0), records_invariant)),
+    S + "set_record|index|Vec[?]":
+        ("records[index] after `if records.len() <= index { records.resize(index + 1) }`", pc.grown_to_index),
+    # ---- write-ahead log
+    "agdb::storage::write_ahead_log::WriteAheadLog::read_exact|alloc|from_elem":
+        ("vec![0; size] only after `remaining < size` was rejected, remaining = bytes left in the WAL file itself",
+         wal_size_within_remaining),
+    "agdb::storage::write_ahead_log::WriteAheadLog::wal_filename|string_insert|":
+        ("pos is 0 or one past an ASCII '/' or '\\\\' found by rfind: a char boundary <= len (and the file name is the "
+         "caller's argument, not file content)", insert_pos_after_separator),
+}
 
 ENTRY = ["agdb::db::DbImpl::new", "agdb::db::DbImpl::with_data", "agdb::db::DbImpl::exec", "agdb::db::DbImpl::transaction",
          "agdb::db::DbImpl::<agdb::storage::any_storage::AnyStorage>::new_file",
@@ -34,5 +424,7 @@ def run(ctx):
     qs = [b for b in fa.bodies.values() if b.crate == "agdb" and b.d.get("name") == "process" and
           b.d.get("impl_trait") == "agdb::query::Query"]
     ctx.floor("R07", "impl Query::process entry points", len(qs), 18)
-    run_panic_rule(ctx, "R07", roots + qs, JUSTIFIED, floor=150)
+    # floor: 150 sites were counted when the rule was written; the fix commits (PathSearch expect, MemoryStorage::read,
+    # derive `.get()`, ...) removed four of them
+    run_panic_rule(ctx, "R07", roots + qs, JUSTIFIED, floor=140)
     return 0
